@@ -147,6 +147,34 @@ CHECKS = {
              "observable only statistically (1000 draws per distribution, threshold at the 1-1e-9 quantile).",
         note="the frequency part is a statistical test (false-alarm probability < 1e-9 per distribution); the alias-table "
              "sampler of rand_distr is trusted beyond that"),
+    "C15": dict(
+        category="model_checking", design_ref="4 C15",
+        technique="Efg.tla (meaning of a Gambit document: accumulated interior payoffs, shared outcomes, infoset names, "
+                  "constant sum) and Game.tla evaluate the PRINTED strategies of every recorded run of the binary exactly "
+                  "on the game as written (MC_Cli.tla); printed numbers and names judged against TLC's values, the library's "
+                  "evaluation on the independently built game, and Cfr.tla's strategies for exact budgets",
+        text="every recorded run (rendering styles x options) is judged by the specification: names and distributions "
+             "exactly, utilities / regrets exactly whenever the printed strategies are small rationals (78 of 90 quick "
+             "runs), otherwise by the library evaluation validated by C01.",
+        note="bounded by the corpus and the rendering styles; long sampled runs are evaluated by the library only"),
+    "C16": dict(
+        category="model_checking", design_ref="4 C16",
+        technique="Cli.tla (option decoding, input routing, clip rule) + Cfr.tla predict the printed solution exactly for "
+                  "budgets <= 3 (MC_Cli.tla, incl. the -r stop rule and the strict clip comparison); every route / format / "
+                  "encoding / destination / thread count of one game and option tuple is compared with the library's solve "
+                  "for the same options and with the other routes",
+        text="exact prediction by the specification for exact presets and small games; implementation-vs-library and "
+             "route-vs-route equality (1e-12 with one thread on integer payoffs, 1e-9 with several threads on tie-free "
+             "dyadic payoffs) for the rest of the option space.",
+        note="sampled methods only through C15's checks; clip decisions with zero exact margin are not judged"),
+    "C17": dict(
+        category="fault_enumeration", design_ref="4 C17",
+        technique="fault catalogue applied to abstract documents; Cli.tla Categories / Efg.tla / Contract.tla state the "
+                  "admissible diagnostic categories per (document, selected parser), evaluated by TLC for every recorded "
+                  "run; the binary's exit status, stderr category, stdout and output file judged against them",
+        text="systematic single faults at the level of the abstract document (30 kinds) x input routes x --input-format; "
+             "valid and within-tolerance documents must be solved, everything else rejected with a documented category.",
+        note="no byte-level fuzzing; one fault per document"),
 }
 
 NOT_YET = "check not built yet (construction in progress, see DESIGN.md section 9)"
